@@ -42,7 +42,9 @@ func init() {
 		Floors:     map[string]int{"commits": 1000, "C01 agreeing commits": 500},
 		Judged:     []string{"commits", "C01 agreeing commits"},
 		Extra:      scriptedBare("C01")})
-	reg(&sim.SimCheck{Prop: "C03", Workload: "c03", Profile: advProfile(merge(noBare, map[string]int{"outsider": 15, "mutate": 35, "twistedNV": 12, "support": 20}), 500, 2),
+	// (standalone PREPREPAREs above view 0 are part of this workload: whatever a node commits after adopting one must still be a
+	// pair its peers accept — the recorded C07 finding may fork the chain, it must not produce a block under another block's certificate)
+	reg(&sim.SimCheck{Prop: "C03", Workload: "c03", Profile: advProfile(map[string]int{"outsider": 15, "mutate": 35, "twistedNV": 12, "support": 20, "barePP": 10, "equivocate": 6}, 500, 2),
 		QuickCases: 5000, ThoroughCases: 120000,
 		NonTrivial: func(r *sim.Result) bool {
 			return r.Stats["C03 commits validated on a peer"] > 0 && r.Stats["delivered adversarial"] > 0
@@ -50,20 +52,20 @@ func init() {
 		Rule:   "as C01; every commit callback's (block, proof) is re-validated with strict ValidateBlockConsensus on another correct node and by the reference certificate predicate; non-trivial = a commit was judged in a case where adversarial messages were delivered",
 		Floors: map[string]int{"C03 commits validated on a peer": 1000},
 		Judged: []string{"C03 commits validated on a peer"}})
-	reg(&sim.SimCheck{Prop: "C04", Workload: "c04", Profile: advProfile(merge(noBare, map[string]int{"badBlock": 25, "twistedNV": 20, "support": 25, "forgedNV": 8, "equivocate": 10, "crossInstance": 14, "reblock": 30, "vcGames": 15}), 500, 2),
+	reg(&sim.SimCheck{Prop: "C04", Workload: "c04", Profile: advProfile(merge(map[string]int{"barePP": 5}, map[string]int{"badBlock": 25, "twistedNV": 20, "support": 25, "forgedNV": 8, "equivocate": 10, "crossInstance": 14, "reblock": 30, "vcGames": 15}), 500, 2),
 		QuickCases: 5000, ThoroughCases: 120000,
 		NonTrivial: func(r *sim.Result) bool { return r.Stats["C04 commits judged"] > 0 && r.Stats["adv badBlock"] > 0 },
 		Rule:       "as C01 with Byzantine leaders proposing blocks every correct validator rejects (view 0, inside NEW_VIEWs) and per-node consumer rejections; non-trivial = a commit was judged in a case where a bad block had been proposed",
 		Floors:     map[string]int{"C04 commits judged": 1000, "adv badBlock": 500},
 		Judged:     []string{"C04 commits judged"}})
-	reg(&sim.SimCheck{Prop: "C07", Workload: "c07", Profile: withOpts(advProfile(map[string]int{"forgedNV": 20, "twistedNV": 20, "barePP": 8, "mutate": 30, "crossInstance": 12}, 450, 2), func(p *sim.Profile) { p.MinN = 5 }),
+	reg(&sim.SimCheck{Prop: "C07", Workload: "c07", Profile: withOpts(advProfile(map[string]int{"forgedNV": 20, "twistedNV": 20, "barePP": 8, "mutate": 30, "crossInstance": 12, "vcGames": 14}, 450, 2), func(p *sim.Profile) { p.MinN = 5 }),
 		QuickCases: 5000, ThoroughCases: 100000,
 		NonTrivial: func(r *sim.Result) bool { return r.Stats["C07 prepares judged"]+r.Stats["C07 adoptions judged"] > 0 },
 		Rule:       "adversarial cases rich in forged / twisted NEW_VIEWs and bare PREPREPAREs; every PREPARE sent and every proposal stored by a correct node in a view above 0 is judged against the reference NEW_VIEW validator; non-trivial = at least one such act was judged",
 		Floors:     map[string]int{"C07 prepares judged": 500, "C07 leader proposals judged": 200, "adv forgedNV": 1000},
-		Judged:     []string{"C07 prepares judged", "C07 adoptions judged", "C07 leader proposals judged"},
+		Judged:     []string{"C07 prepares judged", "C07 adoptions judged", "C07 leader proposals judged", "C07 leader proposals with a certified block judged"},
 		Extra:      scriptedBare("C07")})
-	reg(&sim.SimCheck{Prop: "C08", Workload: "c08", Profile: advProfile(merge(noBare, map[string]int{"mutate": 60, "outsider": 15, "vcGames": 12, "hugeView": 8, "twistedNV": 8}), 400, 2),
+	reg(&sim.SimCheck{Prop: "C08", Workload: "c08", Profile: advProfile(merge(map[string]int{"barePP": 5}, map[string]int{"mutate": 60, "outsider": 15, "vcGames": 12, "hugeView": 8, "twistedNV": 8}), 400, 2),
 		QuickCases: 5000, ThoroughCases: 100000,
 		NonTrivial: func(r *sim.Result) bool {
 			return r.Stats["C08 must-ignore deliveries"] > 0 && r.Stats["delivered adversarial"] > 0
@@ -71,7 +73,7 @@ func init() {
 		Rule:   "adversarial cases rich in field-by-field mutations of wire messages, outsiders and vote games; every Store* call is judged for authenticity and every delivery the reference says must be ignored is checked for effects; non-trivial = adversarial must-ignore deliveries were judged",
 		Floors: map[string]int{"C08 stores judged": 20000, "C08 must-ignore deliveries": 20000, "adv mutate": 5000},
 		Judged: []string{"C08 stores judged", "C08 deliveries judged", "C08 must-ignore deliveries"}})
-	reg(&sim.SimCheck{Prop: "C09", Workload: "c09", Profile: withOpts(advProfile(merge(noBare, map[string]int{"vcGames": 25, "support": 20, "equivocate": 8}), 600, 2), func(p *sim.Profile) { p.CommErrors = true }),
+	reg(&sim.SimCheck{Prop: "C09", Workload: "c09", Profile: withOpts(advProfile(merge(map[string]int{"barePP": 5}, map[string]int{"vcGames": 25, "support": 20, "equivocate": 8}), 600, 2), func(p *sim.Profile) { p.CommErrors = true }),
 		QuickCases: 5000, ThoroughCases: 100000,
 		NonTrivial: func(r *sim.Result) bool {
 			return r.Stats["C09 locked view changes judged"] > 0 || r.Stats["C09 new views re-proposing a lock"] > 0
@@ -80,13 +82,13 @@ func init() {
 		Floors: map[string]int{"C09 locked view changes judged": 2000, "C09 new views judged": 1000, "C09 new views re-proposing a lock": 200},
 		Judged: []string{"C09 locked view changes judged", "C09 new views judged", "C09 new views re-proposing a lock"},
 		Extra:  farViews("C09", 9)})
-	reg(&sim.SimCheck{Prop: "C10", Workload: "c10", Profile: withOpts(advProfile(merge(noBare, map[string]int{"equivocate": 20, "support": 25, "mutate": 20}), 500, 2), func(p *sim.Profile) { p.CommErrors, p.CommitFailures = true, true }),
+	reg(&sim.SimCheck{Prop: "C10", Workload: "c10", Profile: withOpts(advProfile(merge(map[string]int{"barePP": 5}, map[string]int{"equivocate": 20, "support": 25, "mutate": 20}), 500, 2), func(p *sim.Profile) { p.CommErrors, p.CommitFailures = true, true }),
 		QuickCases: 5000, ThoroughCases: 100000,
 		NonTrivial: func(r *sim.Result) bool { return r.Forky && r.Stats["C10 commits judged"] > 0 },
 		Rule:       "adversarial cases with conflicting proposals, duplicated and re-ordered deliveries; every message a correct node sends is judged (single-valued signatures per (h,v), phase order, view order); non-trivial = conflicting proposals were on the wire and a COMMIT of a correct node was judged",
 		Floors:     map[string]int{"C10 commits judged": 2000, "C10 prepares judged": 4000, "C10 view changes judged": 4000},
 		Judged:     []string{"C10 proposals judged", "C10 prepares judged", "C10 commits judged", "C10 view changes judged", "C10 commits by commit quorum"}})
-	reg(&sim.SimCheck{Prop: "C11", Workload: "c11", Profile: withOpts(advProfile(merge(noBare, map[string]int{"vcGames": 25, "outsider": 12, "support": 20, "mutate": 20, "hugeView": 6}), 600, 2), func(p *sim.Profile) { p.CommitteeErrors = true }),
+	reg(&sim.SimCheck{Prop: "C11", Workload: "c11", Profile: withOpts(advProfile(merge(map[string]int{"barePP": 5}, map[string]int{"vcGames": 25, "outsider": 12, "support": 20, "mutate": 20, "hugeView": 6}), 600, 2), func(p *sim.Profile) { p.CommitteeErrors = true }),
 		QuickCases: 5000, ThoroughCases: 100000,
 		NonTrivial: func(r *sim.Result) bool {
 			return r.Stats["C11 judged NEW_VIEW"] > 0 && r.Stats["delivered adversarial"] > 0
